@@ -45,3 +45,18 @@ package bridgesync
 //@   allowcalls isHalted
 //@   ensureserror sync.ErrInconsistentState
 //@   ensureszero
+
+// ---- deposit leaf value (C01, C03): PolygonZkEVMBridgeV2.getLeafValue transcribed (assumption A3):
+// keccak256(abi.encodePacked(uint8 leafType, uint32 originNetwork, address originAddress,
+//           uint32 destinationNetwork, address destinationAddress, uint256 amount, bytes32 keccak256(metadata)))
+
+//@ spec fn cat7(a Bytes, b Bytes, c Bytes, d Bytes, e Bytes, f Bytes, g Bytes) Bytes = catB(catB(catB(catB(catB(catB(catB(emptyB(), a), b), c), d), e), f), g)
+//@ spec fn leafValue(leafType int, originNetwork int, originAddress Addr, destinationNetwork int, destinationAddress Addr, amount int, metadata Bytes) Hash = keccak(cat7(bytes1(leafType), beNB(originNetwork, 4), bytesOf(ab(originAddress), 20), beNB(destinationNetwork, 4), bytesOf(ab(destinationAddress), 20), beNB(amount, 32), bytesOf(hb(keccak(catB(emptyB(), metadata))), 32)))
+
+//@ func (b *Bridge) Hash
+//@   props C01 C03
+//@   requires b != nil && b.Amount != nil
+//@   requires 0 <= bigval(b.Amount) && bigval(b.Amount) < 115792089237316195423570985008687907853269984665640564039457584007913129639936
+//@   modifies b.Amount
+//@   ensures[leaf-value] result == leafValue(b.LeafType, b.OriginNetwork, b.OriginAddress, b.DestinationNetwork, b.DestinationAddress, bigval(b.Amount), bytesOf(seq(b.Metadata), len(b.Metadata)))
+//@   ensures[unchanged] b.Amount == old(b.Amount)
